@@ -230,6 +230,21 @@ func c18Cases(ar *gen18.Arity) []c18case {
 				return out
 			}},
 	}
+	cs = append(cs, c18case{name: "Get(removed entity whose ID was recycled)", seed: 1,
+		gen: func(g *g18, m gen18.Map) string {
+			old := g.ents[3]
+			g.w.RemoveEntity(old)
+			g.w.NewEntityWith(g.comps(ar, vals)...) // recycles the ID
+			m.Get(old)
+			return ""
+		},
+		ref: func(g *g18) string {
+			old := g.ents[3]
+			g.w.RemoveEntity(old)
+			g.w.NewEntityWith(g.comps(ar, vals)...)
+			g.w.Get(old, g.ids[0])
+			return ""
+		}})
 	if ar.Rel {
 		rb := func(g *g18) *ecs.Builder { return ecs.NewBuilder(&g.w, g.ids...).WithRelation(g.gr) }
 		cs = append(cs,
@@ -711,7 +726,91 @@ func maxInt(a, b int) int {
 
 // ----------------------------------------------------------------------------- the check
 
+// c18MapPart runs every Map method of every arity against its ID-based equivalent (also a part of C01: the generic maps
+// and queries are one of the access paths to component data; a positional slip writes into the wrong column).
+func c18MapPart(rp *runner.Report) int {
+	n := 0
+	for v := 0; v < 2; v++ {
+		for ar := 1; ar <= 12; ar++ {
+			a := &gen18.Arities[v][ar]
+			cs := c18Cases(a)
+			for ci := range cs {
+				n++
+				if msg := c18RunCase(a, &cs[ci]); msg != "" {
+					variant := [...]string{"plain", "relation in position 0"}[v]
+					rp.Violation(&runner.ReplayFile{Scenario: "c18", Sig: "map:" + cs[ci].name, Kind: "c18",
+						Msg:     fmt.Sprintf("Map%d.%s (%s): %s", ar, cs[ci].name, variant, msg),
+						OpsText: []string{fmt.Sprintf("Map%d.%s on seed world %d, variant %s", ar, cs[ci].name, cs[ci].seed, variant)}})
+					return n
+				}
+			}
+		}
+	}
+	return n
+}
+
+// c18RegisterPart runs the filter-builder call sequences that contain Register (length <= 4, arities 0, 1, 2, 3, 12): a part of
+// C07 - registering a generic filter never changes what it selects.
+func c18RegisterPart(rp *runner.Report) int {
+	n := 0
+	for v := 0; v < 2; v++ {
+		for _, ar := range []int{0, 1, 2, 3, 12} {
+			if ar == 0 && v == 1 {
+				continue
+			}
+			a := &gen18.Arities[v][ar]
+			ops := []int{fbWith, fbWithout, fbExclusive, fbRegister, fbUnregister, fbQuery}
+			if v == 1 || ar == 0 {
+				ops = append(ops, fbWithRel, fbWithRelT1, fbWithRelT0, fbQueryT2)
+			}
+			if ar == 0 {
+				ops = append(ops, fbWithGR)
+			}
+			var rec func(seq []int) bool
+			rec = func(seq []int) bool {
+				if len(seq) > 0 && (seq[len(seq)-1] == fbQuery || seq[len(seq)-1] == fbQueryT2) {
+					hasReg := false
+					for _, o := range seq {
+						hasReg = hasReg || o == fbRegister
+					}
+					if hasReg {
+						n++
+						if msg, sig, _ := c18FilterSeq(a, seq); msg != "" {
+							rp.Violation(&runner.ReplayFile{Scenario: "c18", Sig: sig, Kind: "c18",
+								Msg: fmt.Sprintf("Filter%d (%s): %s", ar, [...]string{"plain", "relation in position 0"}[v], msg), OpsText: []string{msg}})
+							return true
+						}
+					}
+				}
+				if len(seq) == 4 {
+					return false
+				}
+				for _, o := range ops {
+					if rec(append(seq, o)) {
+						return true
+					}
+				}
+				return false
+			}
+			if rec(nil) {
+				return n
+			}
+		}
+	}
+	return n
+}
+
 func init() {
+	ExtraParts["C01"] = func(rp *runner.Report) {
+		n := c18MapPart(rp)
+		rp.Trans += n
+		fmt.Printf("  generic access paths: %d Map/Query method cases (12 arities x 2 variants) against the ID-based core\n", n)
+	}
+	ExtraParts["C07"] = func(rp *runner.Report) {
+		n := c18RegisterPart(rp)
+		rp.Trans += n
+		fmt.Printf("  generic filters: %d builder call sequences containing Register compared with the core filter\n", n)
+	}
 	Checks["C18"] = func(rp *runner.Report) int {
 		var evals, states int64
 		reported := map[string]bool{}
@@ -1074,6 +1173,52 @@ func c18Misc() string {
 			}
 			if ra != rb || a.snap() != b.snap() {
 				return fmt.Sprintf("%s: result %q / world differs from the ID-based equivalent (%q)", where, ra, rb)
+			}
+		}
+	}
+	// generic.Resource is a view of ecs.Resources: whatever route changes the resource, every mapper sees the current state
+	{
+		type resT struct{ V int }
+		w := ecs.NewWorld()
+		m1, m2 := generic.NewResource[resT](&w), generic.NewResource[resT](&w)
+		id := ecs.ResourceID[resT](&w)
+		p1, p2, p3 := &resT{1}, &resT{2}, &resT{3}
+		type step struct {
+			name string
+			do   func()
+			want *resT
+		}
+		steps := []step{
+			{"m1.Add(p1)", func() { m1.Add(p1) }, p1},
+			{"m1.Get()", func() { m1.Get() }, p1},
+			{"m2.Remove()", func() { m2.Remove() }, nil},
+			{"Resources.Add(p2)", func() { w.Resources().Add(id, p2) }, p2},
+			{"m2.Get()", func() { m2.Get() }, p2},
+			{"Resources.Remove", func() { w.Resources().Remove(id) }, nil},
+			{"ecs.AddResource(p3)", func() { ecs.AddResource(&w, p3) }, p3},
+			{"World.Reset", func() { w.Reset() }, nil},
+			{"m2.Add(p1)", func() { m2.Add(p1) }, p1},
+			{"World.Reset", func() { w.Reset() }, nil},
+		}
+		hist := []string{}
+		for _, st := range steps {
+			hist = append(hist, st.name)
+			if pv := catchP(st.do); pv != nil {
+				return fmt.Sprintf("generic.Resource: %s panicked: %v", strings.Join(hist, "; "), pv)
+			}
+			for k, m := range []*generic.Resource[resT]{&m1, &m2} {
+				var got *resT
+				var has bool
+				if pv := catchP(func() { got, has = m.Get(), m.Has() }); pv != nil {
+					return fmt.Sprintf("generic.Resource: after %s: Get/Has of mapper %d panicked: %v", strings.Join(hist, "; "), k+1, pv)
+				}
+				var core *resT
+				if x := w.Resources().Get(id); x != nil {
+					core = x.(*resT)
+				}
+				if got != st.want || core != st.want || has != (st.want != nil) || w.Resources().Has(id) != has {
+					return fmt.Sprintf("generic.Resource: after %s: mapper %d reports Get = %p, Has = %t; ecs.Resources reports %p (expected %p)", strings.Join(hist, "; "), k+1, got, has, core, st.want)
+				}
 			}
 		}
 	}
